@@ -183,8 +183,10 @@ Theorem C19_intint_identity_eq : forall c rich op (same : bool) a b,
 Proof. exact exact_correct. Qed.
 Print Assumptions C19_intint_identity_eq.
 
-(* stated on values (operands = the normalised representation PyLong_From* builds): this is the
-   function the correspondence run evaluates *)
+(* stated on values (operands = the normalised representation PyLong_From* builds).  The
+   correspondence run evaluates cmp_exact on representations that the extracted wfb and value
+   certify (wf, value = the operand), i.e. on instances of the previous theorem, and compares
+   them with of_Z for operands of up to 8 digits and with lv_tag / ob_digit read from memory *)
 Theorem C19_intint_values_eq : forall c op (same : bool) x y,
   cfg_ok c -> (same = true -> x = y) -> cmp_values c op same x y = Some (zop op x y).
 Proof. exact values_correct. Qed.
